@@ -1,5 +1,11 @@
 package tls
 
+import (
+	"io"
+
+	"github.com/andybalholm/brotli"
+)
+
 // zzArbitraryHandshakeMessage: a handshake message with an arbitrary type byte
 // (or a fixed one), a correct uint24 length and an arbitrary body of n bytes.
 func zzArbitraryMessage(typ byte, n int) []byte {
@@ -73,5 +79,40 @@ func zzC33DecompressCertAllocation() {
 	if l > maxHandshakeCertificateMsg {
 		verifAssert(err != nil && len(zzAlerts) > 0, "oversized-declaration-refused")
 	}
+	verifReach("end")
+}
+
+// A decompression bomb: the decoder yields bytes for as long as it is asked.
+var zzBombDelivered, zzBombBudget int
+
+func zzStubBombRead(r *brotli.Reader, p []byte) (int, error) {
+	if zzBombDelivered > zzBombBudget {
+		// already reported; end the stream so that the run terminates
+		return 0, io.EOF
+	}
+	zzBombDelivered += len(p)
+	verifAssert(zzBombDelivered <= zzBombBudget, "decompressor-not-drained-beyond-declared-length")
+	for i := range p {
+		p[i] = 0
+	}
+	return len(p), nil
+}
+
+//verif:harness C33 decompress_cert_bomb_not_drained unwind=400
+//verif:stub (*utls.Conn).sendAlert zzStubSendAlert
+//verif:stub github.com/andybalholm/brotli.NewReader zzStubBrotliNewReader
+//verif:stub (*github.com/andybalholm/brotli.Reader).Read zzStubBombRead
+//verif:expect end
+//verif:assume the decoder is an endless stream (a decompression bomb): it fills every buffer it is handed and never reports EOF
+//verif:doc decompressCert against a decompression bomb with a declared length of 0..8 bytes: the client pulls at most the declared length plus a 1 KiB probe from the decoder before it gives up with bad_certificate; draining the stream to find out how much longer it is counts as a violation.
+func zzC33DecompressCertBombNotDrained() {
+	zzAlerts = nil
+	c := &Conn{config: &Config{}}
+	uc := &UConn{Conn: c, certCompressionAlgs: []CertCompressionAlgo{CertCompressionBrotli}}
+	hs := &clientHandshakeStateTLS13{c: c, uconn: uc}
+	l := uint32(verifChoice("declared", 9))
+	zzBombDelivered, zzBombBudget = 0, int(l)+1024
+	_, err := hs.decompressCert(utlsCompressedCertificateMsg{algorithm: uint16(CertCompressionBrotli), uncompressedLength: l, compressedCertificateMessage: []byte{1}})
+	verifAssert(err != nil && len(zzAlerts) > 0, "bomb-refused-with-alert")
 	verifReach("end")
 }
